@@ -514,6 +514,14 @@ theorem flat_messages_shape :
   simp [Generated.schemaMsgSend, Generated.schemaMsgBeginUnstake, Generated.schemaMsgUnjail, Generated.schemaMsgDAOTransfer,
     Generated.schemaMsgChangeParam, wireOf]
 
+/-- the two messages that are not flat: a stake carries a registered key and an Int; an upgrade an address and a nested plan
+of an int64 height and a version - the token shapes of the `amsg2` operation -/
+theorem stake_upgrade_shape :
+    Generated.schemaMsgStake.map (fun f => wireOf f.2) = [some true, some true] ∧
+    Generated.schemaMsgUpgrade.map (·.2) = ["sdk.Address", "Upgrade"] ∧
+    Generated.schemaUpgrade.map (fun f => wireOf f.2) = [some false, some true] := by
+  simp [Generated.schemaMsgStake, Generated.schemaMsgUpgrade, Generated.schemaUpgrade, wireOf]
+
 /-- the transaction: message, repeated fee, signature struct (key, bytes), memo, entropy - the layout of `encodeStdTx` -/
 theorem stdTx_shape :
     Generated.schemaStdTx.map (·.2) = ["sdk.Msg", "sdk.Coins", "StdSignature", "string", "int64"] ∧
